@@ -1,8 +1,19 @@
 #!/bin/bash
-# harness/coqchk_all.sh — re-check every compiled theorem file (coq/Props/*.vo and coq/GenProps if compiled) and everything it
-# depends on with Coq's independent checker; writes coqchk_report.txt (axioms of all loaded libraries as coqchk -o reports them).
+# harness/coqchk_all.sh — re-check every compiled theorem file (coq/Props/*.vo) and everything it depends on with Coq's
+# independent checker; writes coqchk_report.txt (axioms of all loaded libraries as coqchk -o reports them).
+# Two runs: (1) every property file except the Flocq-based C20_float (expected: no axioms at all);
+#           (2) C20_float alone (expected: the real-number axioms of the standard library, brought in by Flocq/Reals).
 cd "$(dirname "$0")/../coq" || exit 2
-MODS=$(ls Props/*.vo | sed 's/\.vo$//; s#/#.#; s/^/EV./')
-( echo "# coqchk -silent -o -Q coq EV $MODS"; echo "# $(date -u) coqchk $(coqchk --version 2>&1 | head -1)";
-  timeout 7200 coqchk -silent -o -Q . EV $MODS 2>&1 | tail -40 ) > ../coqchk_report.txt
-tail -14 ../coqchk_report.txt
+ALL=$(ls Props/*.vo | sed 's/\.vo$//; s#/#.#; s/^/EV./')
+MAIN=$(echo "$ALL" | grep -v 'C20_float')
+{
+  echo "# $(date -u)  $(coqchk --version 2>&1 | head -1)"
+  echo "# run 1: coqchk -silent -o -Q coq EV $(echo $MAIN | tr '\n' ' ')"
+  timeout 7200 coqchk -silent -o -Q . EV $MAIN 2>&1 | tail -16
+  echo "# exit status run 1: ${PIPESTATUS[0]}"
+  echo
+  echo "# run 2: coqchk -silent -o -Q coq EV EV.Props.C20_float"
+  timeout 7200 coqchk -silent -o -Q . EV EV.Props.C20_float 2>&1 | tail -20
+  echo "# exit status run 2: ${PIPESTATUS[0]}"
+} > ../coqchk_report.txt
+cat ../coqchk_report.txt | tail -45
